@@ -425,12 +425,14 @@ pub struct Acc {
     pub rounds: AtomicU64,
     pub orders_seen: AtomicU64,
     pub cancels_seen: AtomicU64,
+    /// forced-cancellation scenarios whose calibration held (a verdict was reached)
+    pub forced_decided: AtomicU64,
     pub fails: Mutex<BTreeMap<String, (String, serde_json::Value)>>,
 }
 
 impl Acc {
     pub fn new() -> Self {
-        Acc { execs: AtomicU64::new(0), rounds: AtomicU64::new(0), orders_seen: AtomicU64::new(0), cancels_seen: AtomicU64::new(0), fails: Mutex::new(BTreeMap::new()) }
+        Acc { execs: AtomicU64::new(0), rounds: AtomicU64::new(0), orders_seen: AtomicU64::new(0), cancels_seen: AtomicU64::new(0), forced_decided: AtomicU64::new(0), fails: Mutex::new(BTreeMap::new()) }
     }
     pub fn fail(&self, sig: String, detail: String, replay: serde_json::Value) {
         self.fails.lock().unwrap().entry(sig).or_insert((detail, replay));
@@ -517,6 +519,79 @@ pub fn run_scripted(acc: &Acc, multi: bool, c: &AgentCfg, start: StartBook, scri
                 }
             }
         }
+    }
+}
+
+/// Orders that survive one cancellation round stay subject to the next one. Noise agents with
+/// 0 < p_cancel < 1 and p_limit = 1, quoting far behind the touch (no fills): round 0 and 1 place
+/// orders under the default stream; in round 2 the generator answers the LARGEST value to the
+/// first K draws of the update (K = live own orders), in round 3 the SMALLEST value. The answers
+/// are only interpreted through two calibration facts checked on the same run: all-largest
+/// answers cancel nothing, and all-smallest answers cancel every order placed in round 2 (which
+/// has never been through a cancellation round before). If both hold, the orders of rounds 0-1
+/// that survived round 2 must be cancelled in round 3 as well.
+pub fn forced_cancellation(acc: &Acc, multi: bool, n: u16, tick: u32, p_cancel: f32) {
+    acc.execs.fetch_add(1, Ordering::Relaxed);
+    let c = AgentCfg::Noise { start: 10, n, tick, p_limit: 1.0, p_market: 0.0, p_cancel, vol: 3, mu: 3.0, sigma: 0.2 };
+    let replay = json!({"engine": "agentsx", "scenario": "forced cancellation rounds", "multi_asset": multi, "agent": format!("{:?}", c)});
+    let r = util::subject(|| -> Result<(), (String, String)> {
+        let mut w = World::new(multi, &c, StartBook::TwoSided, 5000);
+        let own = |o: &OrderRec| o.trader >= 10 && o.trader < 10 + n as u32;
+        let mut placed_in: Vec<Vec<usize>> = Vec::new();
+        for round in 0..4usize {
+            let before = w.orders();
+            let live: Vec<usize> = before.iter().filter(|o| own(o) && o.status == ACTIVE).map(|o| o.id).collect();
+            let k = live.len() + 2;
+            let script: Vec<Ans> = match round {
+                2 => vec![Ans::Raw(u64::MAX); k],
+                3 => vec![Ans::Raw(0); k],
+                _ => vec![],
+            };
+            let mut rng = ScriptRng::new(script, 900 + round as u64);
+            rng.budget = 200_000;
+            w.update(&mut rng);
+            let after_update = w.orders();
+            placed_in.push(after_update[before.len()..].iter().filter(|o| own(o)).map(|o| o.id).collect());
+            let mut srng = ScriptRng::new(vec![], 70 + round as u64);
+            w.step(&mut srng);
+            let after = w.orders();
+            if after.iter().any(|o| own(o) && o.status == FILLED) {
+                return Ok(()); // (a fill: the scenario no longer isolates cancellations; no verdict)
+            }
+            let cancelled: Vec<usize> = live.iter().copied().filter(|id| after[*id].status == CANCELLED).collect();
+            match round {
+                2 => {
+                    if !cancelled.is_empty() {
+                        return Ok(()); // calibration: the largest answers did cancel something - draws are not where assumed
+                    }
+                }
+                3 => {
+                    let fresh: Vec<usize> = placed_in[2].iter().copied().filter(|id| live.contains(id)).collect();
+                    if fresh.is_empty() || fresh.iter().any(|id| !cancelled.contains(id)) {
+                        return Ok(()); // calibration failed: no verdict
+                    }
+                    let survivors: Vec<usize> = live.iter().copied().filter(|id| !cancelled.contains(id)).collect();
+                    if !survivors.is_empty() {
+                        return Err((
+                            "surviving-order-no-longer-subject-to-cancellation".into(),
+                            format!(
+                                "p_cancel {}: with the smallest generator answers every order placed one round earlier ({:?}) was cancelled, but orders {:?}, which had survived an earlier cancellation round, were not looked at again",
+                                p_cancel, fresh, survivors
+                            ),
+                        ));
+                    }
+                    acc.cancels_seen.fetch_add(cancelled.len() as u64, Ordering::Relaxed);
+                    acc.forced_decided.fetch_add(1, Ordering::Relaxed);
+                }
+                _ => {}
+            }
+        }
+        Ok(())
+    });
+    match r {
+        Ok(Ok(())) => {}
+        Ok(Err((cl, d))) => acc.fail(format!("agents/noise/{}", cl), d, replay),
+        Err(m) => acc.fail(format!("agents/abort/noise/{}", util::panic_sig(&m)), m, replay),
     }
 }
 
@@ -629,6 +704,10 @@ pub fn c16(tier: &str) -> i32 {
                     continue;
                 }
                 cfgs.push(AgentCfg::Random { n, tick_range: (495, 506), vol_range: (1, 4), tick, rate: p });
+                if n == 3 && p == 1.0 && tick <= 2 {
+                    // a volume range that starts at zero is a non-empty range too
+                    cfgs.push(AgentCfg::Random { n, tick_range: (495, 506), vol_range: (0, 2), tick, rate: p });
+                }
                 if n == 3 && (p == 1.0 || p == 0.3) {
                     // ranges that reach the ends of the price axis (a sell at 0 / a buy at 2^32-1 are executed at once by the book)
                     cfgs.push(AgentCfg::Random { n, tick_range: (0, 3), vol_range: (1, 4), tick, rate: p });
@@ -722,6 +801,15 @@ pub fn c16(tier: &str) -> i32 {
             }
         }
     });
+    for multi in [false, true] {
+        for n in [1u16, 3] {
+            for tick in [1u32, 2] {
+                for p in [0.3f32, 0.5, 0.9] {
+                    forced_cancellation(&acc, multi, n, tick, p);
+                }
+            }
+        }
+    }
     let execs = acc.execs.load(Ordering::Relaxed);
     let rounds_n = acc.rounds.load(Ordering::Relaxed);
     out.set("states", json!(execs));
@@ -730,6 +818,7 @@ pub fn c16(tier: &str) -> i32 {
     out.set("configurations", json!(cfgs.len() * starts.len() * 2));
     out.set("orders_submitted_by_agents", json!(acc.orders_seen.load(Ordering::Relaxed)));
     out.set("cancellations_by_agents", json!(acc.cancels_seen.load(Ordering::Relaxed)));
+    out.set("forced_cancellation_scenarios", json!({"run": 24, "decided (calibration held)": acc.forced_decided.load(Ordering::Relaxed), "rule": "noise agents, 0 < p_cancel < 1: largest answers to the cancellation draws in round 2 (nothing cancelled), smallest in round 3: every live own order must be cancelled, also those that survived round 2"}));
     out.set(
         "bounds",
         json!({
